@@ -569,6 +569,8 @@ func init() {
 			c.min("R-PREORDER", 1)
 			c.rulePageCursor()
 			c.min("R-PAGECURSOR", 2)
+			c.ruleRootArg()
+			c.min("R-ROOTARG", 12)
 			// call chain
 			c.doc("R-CALLCHAIN", "StateModule.GetKeysPaged -> StorageAPI.GetKeysWithPrefix -> (*InmemoryStorageState).GetKeysWithPrefix -> TrieState.GetKeysWithPrefix -> (*InMemoryTrie).GetKeysWithPrefix")
 			chain := [][2]string{{"dot/rpc/modules", "(*StateModule).GetKeysPaged"}, {"dot/state", "(*InmemoryStorageState).GetKeysWithPrefix"}}
